@@ -76,13 +76,24 @@ def gen_program(rng, nmax=6, allow_time=True):
             items.append(f"S{rng.choice([1, 100, 400, 1500])}")
         rng.shuffle(items)
         # launches keep child order irrelevant; joins of manual children come after their launch
+        if k and rng.random() < 0.15:
+            items.insert(rng.randint(0, len(items)), f"J{k}")       # self-join: refused with EDEADLK, state unchanged
         for c in children[k]:
             if not managed[c]:
+                if rng.random() < 0.1:
+                    # join of a handle that has not been launched yet (no-op)
+                    items.insert(rng.randint(0, items.index(ltok[c])), f"J{c}")
                 pos = items.index(ltok[c])
                 at = rng.randint(pos + 1, len(items))
                 items.insert(at, f"D{c}" if c in detached else f"J{c}")
+                if c in detached and rng.random() < 0.25:
+                    items.insert(items.index(f"D{c}") + 1, f"J{c}")   # join after detach: refused with NOT_JOINABLE
                 if c not in detached and rng.random() < 0.3:
-                    items.insert(items.index(f"J{c}") + 1, f"D{c}")
+                    jpos = len(items) - 1 - items[::-1].index(f"J{c}")
+                    items.insert(jpos + 1, f"D{c}")
+                if c not in detached and rng.random() < 0.2:
+                    jpos = len(items) - 1 - items[::-1].index(f"J{c}")
+                    items.insert(jpos + 1, f"J{c}")                 # second join: the handle is JOIN_COMPLETED
         if k == 0:
             timed = False
             extra = []
@@ -169,6 +180,9 @@ SMALL = [
     # is parked in the pending-join list
     ("reinit-main", ["slot 1 M", "slot 2 M Y", "main L1 L2 I W C"], (2, 80, 500), (3, 100, 8000)),
     ("reinit-thread", ["slot 1 M", "slot 2 M Y I Y", "slot 3 U I", "main L1 L2 L3 J3 W"], (1, 100, 400), (2, 120, 8000)),
+    # refused joins: a self-join (EDEADLK) must leave the handle JOINABLE so that the owner's join still waits
+    ("self-join", ["slot 1 U Y J1 A1 Y", "main L1 Y J1 J1"], (2, 60, 400), (3, 80, 6000)),
+    ("self-join-managed-mix", ["slot 1 U J1 L2 A1", "slot 2 M J2", "main J1 L1 J1 W"], (1, 90, 400), (2, 110, 6000)),
     ("create-window-3", ["slot 1 M L2n", "slot 2 M L3", "slot 3 M", "main L1n W"], (1, 100, 400), (2, 120, 8000)),
 ]
 
@@ -224,6 +238,7 @@ def oracle(case, lines):
     managed = {k: v[0] for k, v in prog["slots"].items()}
     idx = {}
     launch_ok, launch_line, runs, dones, regs, cbs, joins = {}, {}, {}, {}, {}, {}, {}
+    real_joins, user_join_errors = {}, 0
     for i, l in enumerate(P):
         t = l.split()
         if t[1] == "launch":
@@ -252,7 +267,24 @@ def oracle(case, lines):
             k = int(t[2][1:])
             cbs.setdefault(k, []).append((i, t[3], t[4]))
         elif t[1] == "join":
-            joins.setdefault(int(t[2][1:]), []).append(i)
+            k = int(t[2][1:])
+            kv = dict(x.split("=", 1) for x in t[3:])
+            rc, pre, post, by = kv.get("rc"), kv.get("pre"), kv.get("post"), kv.get("by")
+            if rc != "OK":
+                user_join_errors += 1
+                if post != pre:
+                    errs.append(f"a refused aws_thread_join on slot {k} ({rc}) changed the handle state {pre} -> {post}")
+                if rc == "AWS_ERROR_THREAD_DEADLOCK_DETECTED" and by != f"s{k}":
+                    errs.append(f"aws_thread_join reported a deadlock for a join that is not a self-join: {l}")
+            elif pre == "JOINABLE":
+                if post != "JOIN_COMPLETED":
+                    errs.append(f"successful join on slot {k} left the handle in state {post}")
+                real_joins.setdefault(k, []).append(i)
+            elif post != pre:
+                errs.append(f"aws_thread_join on a non-joinable handle of slot {k} changed its state {pre} -> {post}")
+            if by == f"s{k}" and pre == "JOINABLE" and rc != "AWS_ERROR_THREAD_DEADLOCK_DETECTED":
+                errs.append(f"self-join on slot {k} was not refused: {l}")
+            joins.setdefault(k, []).append(i)
     # run-once
     for k, ok in launch_ok.items():
         r = runs.get(k, [])
@@ -277,7 +309,9 @@ def oracle(case, lines):
                 errs.append(f"slot {k}: callback {c} ran on another thread ({on})")
             if dones.get(k) and i < dones[k][0]:
                 errs.append(f"slot {k}: callback {c} ran before the function returned")
-    for k, js in joins.items():
+    for k, js in real_joins.items():
+        if len(js) > 1:
+            errs.append(f"slot {k} was really joined {len(js)} times")
         if launch_ok.get(k) and not managed.get(k, False):
             last = max([dones.get(k, [10**9])[0]] + [i for i, _, _ in cbs.get(k, [])])
             if not dones.get(k) or js[0] < last:
@@ -316,7 +350,9 @@ def oracle(case, lines):
             errs.append("deadlock: " + " / ".join(l for l in P if l.startswith("P blocked")))
         if kv["livelock"] != "0":
             errs.append("no progress within the step bound (livelock)")
-        if kv["misuse"] != "0":
+        # a join the library refused with NOT_JOINABLE (join after detach) is the user's error and counted by the scheduler
+        not_joinable = sum(1 for l in P if l.startswith("P join") and "rc=AWS_ERROR_THREAD_NOT_JOINABLE" in l)
+        if int(kv["misuse"]) > not_joinable:
             errs.append("pthread misuse reported by the scheduler (unlock by non-owner / join of a joined thread)")
         if kv["rerun"] != "0":
             errs.append("a thread function ran more than once")
